@@ -16,7 +16,7 @@ import subprocess
 from .. import common as C
 from ..flow import Flow
 
-MODEL_FIXED = os.environ.get("VERIF_C05_MODEL_FIXED", "0") == "1"   # set the default to True once the repair is committed
+MODEL_FIXED = os.environ.get("VERIF_C05_MODEL_FIXED", "1") == "1"   # the repair of lower_switch is committed in /repo (fix: 7f.. see known_findings.d/C05.json)
 
 NAMES = {0: "a", 1: "b", 2: "c", 3: "d", 4: "i32", 5: "nil", 6: "zz"}
 CODE = {v: k for k, v in NAMES.items()}
